@@ -74,6 +74,22 @@ let run_case (line:string) : string =
      | Inl h -> "ok " ^ String.concat " " (List.init 25 (fun i -> string_of_z (h (nat_of_int i))))
      | Inr Short -> "crash"
      | Inr _ -> "err")
+  | "find" -> let es = tents ts in let id = tn ts in
+    (match find_tile es id with
+     | None -> "none"
+     | Some e -> String.concat " " ["some"; string_of_n e.tid; string_of_n e.off; string_of_n e.len; string_of_n e.run])
+  | "tile" ->
+    let data = bytes_of_hex (tok ts) in
+    let lb = tn ts in let ro = tn ts in let rl = tn ts in let _gz = ti ts in
+    let nd = ti ts in
+    let table = List.init nd (fun _ ->
+      let o = tn ts in let l = tn ts in let ok = ti ts in let raw = bytes_of_hex (tok ts) in
+      ((o, l), if ok = 1 then Some raw else None)) in
+    let id = tn ts in
+    (match tile_response table lb depth_fuel ro rl data id with
+     | R200 b -> "200 " ^ hex_of_bytes b
+     | R204 -> "204"
+     | R500 -> "500")
   | op -> "unknown-op " ^ op
 
 let () =
